@@ -91,7 +91,8 @@ fn find_and_play_best_move(
     let (tx, rx) = mpsc::channel();
     let clone = board.clone();
     let mut draw_clone = draw_table.clone();
-    thread::spawn(move || get_best_move(&clone, &mut draw_clone, start, time_to_move_ms, &tx));
+    let search_thread =
+        thread::spawn(move || get_best_move(&clone, &mut draw_clone, start, time_to_move_ms, &tx));
     // keep looking until we are out of time
     // also add a guard to ensure we at least get a move from the search thread
     while !out_of_time(start, time_to_move_ms) || best_move.is_none() {
@@ -101,6 +102,9 @@ fn find_and_play_best_move(
             thread::sleep(Duration::from_millis(1));
         }
     }
+    // the search stops at its next clock test, wait for it so that none of its
+    // output can follow the answer or leak into the reply to the next request
+    search_thread.join().unwrap();
     let board = best_move.unwrap();
     send_best_move_to_gui(&board);
     info!("{}", board.simple_board());
